@@ -1,6 +1,7 @@
 import NpsVerif.Proofs.RLIndexRange
 import NpsVerif.Proofs.RLIndexPySlice
 import NpsVerif.Props.C14Assumed
+import NpsVerif.Proofs.StepClamp
 /-! # Run-length arrays: stride subsetting `_step_subset` (reversal, ceiling of boundaries, clean-up) -/
 namespace Proofs.RLIndex
 open Model Model.RLA
@@ -174,12 +175,13 @@ theorem step_core (eq : α → α → Bool) (heq : ∀ x y, eq x y = true → x 
   rw [jd, hd]
   exact stride_getElem? ev1 vs1 hlen hmono h0 K hK j
 
-theorem stepSubset_spec (eq : α → α → Bool) (heq : ∀ x y, eq x y = true → x = y) (r : RLA α)
+/-- the stride arithmetic (for any non-zero step, clamped or not) -/
+theorem stepSubsetCore_spec (eq : α → α → Bool) (heq : ∀ x y, eq x y = true → x = y) (r : RLA α)
     (h : r.Valid) (k : Int) (hk : k ≠ 0) :
-    (RLA.mk (r.stepSubset eq k).1 (r.stepSubset eq k).2).Valid ∧
-    (RLA.mk (r.stepSubset eq k).1 (r.stepSubset eq k).2).decode = Py.slice r.decode none none k := by
+    (RLA.mk (r.stepSubsetCore eq k).1 (r.stepSubsetCore eq k).2).Valid ∧
+    (RLA.mk (r.stepSubsetCore eq k).1 (r.stepSubsetCore eq k).2).decode = Py.slice r.decode none none k := by
   obtain ⟨h0, hl, hpw⟩ := (valid_iff r).1 h
-  unfold stepSubset
+  unfold stepSubsetCore
   simp only []
   rw [valid_getLast r h, Option.getD_some]
   rcases Int.eq_nat_or_neg k with ⟨K, rfl | rfl⟩
@@ -199,5 +201,30 @@ theorem stepSubset_spec (eq : α → α → Bool) (heq : ∀ x y, eq x y = true 
     apply List.ext_getElem?
     intro j
     rw [this.2 j, slice_neg_getElem? _ K hK, rev_decode r h]
+
+/-- `_step_subset` is the stride arithmetic at the clamped step -/
+theorem stepSubset_eq_core (eq : α → α → Bool) (r : RLA α) (k : Int) :
+    r.stepSubset eq k = r.stepSubsetCore eq
+      (if k < 0 then -((min k.natAbs (max r.len 1) : Nat) : Int)
+        else ((min k.natAbs (max r.len 1) : Nat) : Int)) := rfl
+
+theorem clamp_ne_zero (n : Nat) (k : Int) (hk : k ≠ 0) :
+    (if k < 0 then -((min k.natAbs (max n 1) : Nat) : Int)
+        else ((min k.natAbs (max n 1) : Nat) : Int)) ≠ 0 := by
+  split <;> omega
+
+theorem stepSubset_spec (eq : α → α → Bool) (heq : ∀ x y, eq x y = true → x = y) (r : RLA α)
+    (h : r.Valid) (k : Int) (hk : k ≠ 0) :
+    (RLA.mk (r.stepSubset eq k).1 (r.stepSubset eq k).2).Valid ∧
+    (RLA.mk (r.stepSubset eq k).1 (r.stepSubset eq k).2).decode = Py.slice r.decode none none k := by
+  rw [stepSubset_eq_core, Py.slice_step_clamp r.decode k hk, ← len_eq_decode_length r h]
+  exact stepSubsetCore_spec eq heq r h _ (clamp_ne_zero r.len k hk)
+
+/-- the clamp does not change the decoded result of the stride arithmetic -/
+theorem stepSubset_decode_eq_core (eq : α → α → Bool) (heq : ∀ x y, eq x y = true → x = y) (r : RLA α)
+    (h : r.Valid) (k : Int) (hk : k ≠ 0) :
+    (RLA.mk (r.stepSubset eq k).1 (r.stepSubset eq k).2).decode =
+      (RLA.mk (r.stepSubsetCore eq k).1 (r.stepSubsetCore eq k).2).decode := by
+  rw [(stepSubset_spec eq heq r h k hk).2, (stepSubsetCore_spec eq heq r h k hk).2]
 
 end Proofs.RLIndex
